@@ -377,6 +377,11 @@ class Frame:
             names = [ast.unparse(e).rsplit('.', 1)[-1] for e in (h.type.elts if isinstance(h.type, ast.Tuple) else [h.type])]
             return kind in names or 'Exception' in names or 'BaseException' in names
         new = self.ctx.raises[n_r:]
+        if not s.handlers:
+            # try / finally: nothing is caught; the clean-up runs and whatever the body did (fall through, return, raise) stands
+            if s.finalbody:
+                self.block(s.finalbody)
+            return out
         hit = [(i, r) for i, r in enumerate(new) if any(caught_by(h, r[0]) for h in s.handlers)]
         if not hit and not s.finalbody and not any(e['kind'] in ('call', 'pkgcall') and not e.get('inlined') for e in self.ctx.trace[-0:0]):
             pure = all(isinstance(x, (ast.Assign, ast.Expr, ast.Return, ast.AugAssign, ast.AnnAssign)) for x in s.body)
@@ -1191,6 +1196,9 @@ class Frame:
                 return ('extref', dotted)
         b = self.ex(n.value)
         a = n.attr
+        if a == 'flat' and b[0] in ('nd', 'shaped', 'call', 'arr', 'map'):
+            from .calls import method
+            return method(self, b, n.value, 'flatten', [], {}, [], n)         # the elements in C order, as flatten() lists them
         if b[0] == 'obj':
             attrs = self.ctx.heap[b[1]]['attrs']
             if a in attrs:
@@ -1379,6 +1387,11 @@ class Frame:
         cond = T.and_(conds)
         key = keys[0] if len(keys) == 1 else ('nest', tuple(keys))
         if cond == TRUE:
+            if kind == 'list' and len(keys) == 1 and key[0] == 'range' and key[1] == C(0) and key[3] == C(1) and key[2][0] == 'len':
+                src = key[2][1]
+                lv_ = ('lv', key, len(saved_loops))
+                if elt in (T.index(src, lv_), ('idx', src, lv_)) and any(x[0] == 'poolresult' for x in T.walk(src)):
+                    return T.call('list', (src,))          # [x for x in <iterator>] collects the iterator in order: list(<iterator>)
             m = ('map', key, elt)
             ss = T.stride_slice(m)
             return ss if ss is not None else m
